@@ -768,10 +768,417 @@ fn c17_oracle(evaluated: &[Evaluated]) -> (Vec<OracleFailure>, serde_json::Value
 }
 
 // ------------------------------------------------------------------------------------------------
+// C16
+// ------------------------------------------------------------------------------------------------
 
-#[allow(dead_code)]
-fn unused(_: TransparentValue) {}
+pub struct C16;
+
+const IR_DIR: &str = "/repo/trustfall_core/test_data/tests/valid_queries";
+
+/// F-28 witness: prints as `1.947700395895162e-169`, which serde_json parses back as
+/// 1.9477003958951618e-169 (one ulp below).
+const F28_WITNESS_BITS: u64 = 0x1ce7_8591_aab1_887a;
+
+/// Does this float survive serde_json's own print → parse (checked on a bare f64, no trustfall code)?
+fn json_exact(f: f64) -> bool {
+    let s = serde_json::to_string(&f).unwrap();
+    matches!(serde_json::from_str::<f64>(&s), Ok(g) if g.to_bits() == f.to_bits())
+}
+
+fn random_finite(rng: &mut Rng) -> f64 {
+    loop {
+        let f = f64::from_bits(rng.next_u64());
+        if f.is_finite() {
+            return f;
+        }
+    }
+}
+
+/// Replace every float leaf by one drawn from `pick`.
+fn refloat(v: &FieldValue, pick: &mut dyn FnMut() -> f64) -> FieldValue {
+    match v {
+        FieldValue::Float64(_) => FieldValue::Float64(pick()),
+        FieldValue::List(items) => FieldValue::List(items.iter().map(|x| refloat(x, pick)).collect::<Vec<_>>().into()),
+        other => other.clone(),
+    }
+}
+
+fn has_float(v: &FieldValue) -> bool {
+    match v {
+        FieldValue::Float64(_) => true,
+        FieldValue::List(items) => items.iter().any(has_float),
+        _ => false,
+    }
+}
+
+fn render_masked(v: &FieldValue) -> String {
+    fn go(v: &FieldValue) -> Sexp {
+        match v {
+            FieldValue::Float64(_) => Sexp::call("f", vec![Sexp::atom("_")]),
+            FieldValue::List(items) => Sexp::call("l", items.iter().map(go).collect()),
+            other => value_to_sexp(other),
+        }
+    }
+    go(v).to_string()
+}
+
+/// Same tree, same variants (integers compared by `==` across representations), floats ignored.
+fn same_but_floats(a: &FieldValue, b: &FieldValue) -> bool {
+    match (a, b) {
+        (FieldValue::Float64(_), FieldValue::Float64(_)) => true,
+        (FieldValue::List(x), FieldValue::List(y)) => x.len() == y.len() && x.iter().zip(y.iter()).all(|(p, q)| same_but_floats(p, q)),
+        (FieldValue::List(_), _) | (_, FieldValue::List(_)) | (FieldValue::Float64(_), _) | (_, FieldValue::Float64(_)) => false,
+        (p, q) => p == q,
+    }
+}
+
+fn enums_to_strings(v: &FieldValue) -> FieldValue {
+    match v {
+        FieldValue::Enum(s) => FieldValue::String(s.clone()),
+        FieldValue::List(items) => FieldValue::List(items.iter().map(enums_to_strings).collect::<Vec<_>>().into()),
+        other => other.clone(),
+    }
+}
+
+fn tv_roundtrip(v: &FieldValue) -> Result<FieldValue, String> {
+    let t: TransparentValue = v.clone().into();
+    let text = serde_json::to_string(&t).map_err(|e| e.to_string())?;
+    let back: TransparentValue = serde_json::from_str(&text).map_err(|e| e.to_string())?;
+    Ok(back.into())
+}
+
+fn fv_json(v: &FieldValue) -> Result<FieldValue, String> {
+    let text = serde_json::to_string(v).map_err(|e| e.to_string())?;
+    serde_json::from_str(&text).map_err(|e| e.to_string())
+}
+
+fn fv_ron(v: &FieldValue) -> Result<FieldValue, String> {
+    let text = ron::to_string(v).map_err(|e| e.to_string())?;
+    ron::from_str(&text).map_err(|e| e.to_string())
+}
+
+/// The three text routes of a type: Display/parse, serde_json, ron.
+fn ty_routes(t: &Type) -> [(&'static str, Result<Type, String>); 3] {
+    let display = Type::parse(&t.to_string()).map_err(|e| e.to_string());
+    let json = serde_json::to_string(t).map_err(|e| e.to_string()).and_then(|s| serde_json::from_str::<Type>(&s).map_err(|e| e.to_string()));
+    let ron = ron::to_string(t).map_err(|e| e.to_string()).and_then(|s| ron::from_str::<Type>(&s).map_err(|e| e.to_string()));
+    [("display", display), ("json", json), ("ron", ron)]
+}
+
+fn valid_name(b: &str) -> bool {
+    !b.starts_with('[') && !b.ends_with('!')
+}
+
+fn ir_roundtrip(file: &str) -> String {
+    use trustfall_core::ir::IRQuery;
+    use trustfall_core::test_types::TestIRQueryResult;
+    let path = format!("{IR_DIR}/{file}");
+    let Ok(text) = std::fs::read_to_string(&path) else { return "unreadable".into() };
+    let parsed: TestIRQueryResult = match ron::from_str(&text) {
+        Ok(p) => p,
+        Err(e) => return format!("input-unparsable:{}", e.to_string().replace(' ', "_")),
+    };
+    let Ok(test) = parsed else { return "input-is-error".into() };
+    let ir = test.ir_query;
+    let via_ron = ron::to_string(&ir).map_err(|e| e.to_string()).and_then(|s| ron::from_str::<IRQuery>(&s).map_err(|e| e.to_string()));
+    let via_json = serde_json::to_string(&ir).map_err(|e| e.to_string()).and_then(|s| serde_json::from_str::<IRQuery>(&s).map_err(|e| e.to_string()));
+    let mut problems = vec![];
+    match via_ron {
+        Ok(back) if back == ir => {}
+        Ok(_) => problems.push("ron-not-equal".to_string()),
+        Err(e) => problems.push(format!("ron-error:{}", e.replace(' ', "_"))),
+    }
+    match via_json {
+        Ok(back) if back == ir => {}
+        Ok(_) => problems.push("json-not-equal".to_string()),
+        Err(e) => problems.push(format!("json-error:{}", e.replace(' ', "_"))),
+    }
+    // the arguments map travels with the compiled query in the test files: FieldValue (tagged)
+    for (k, v) in &test.arguments {
+        for (fmt, r) in [("json", fv_json(v)), ("ron", fv_ron(v))] {
+            match r {
+                Ok(back) if &back == v && render_value(&back) == render_value(v) => {}
+                _ => problems.push(format!("argument-{fmt}-not-equal:{k}")),
+            }
+        }
+    }
+    if problems.is_empty() { "ok".into() } else { problems.join(",") }
+}
+
+impl Prop for C16 {
+    fn id(&self) -> &'static str {
+        "C16"
+    }
+    fn rule(&self) -> &'static str {
+        "Types: (ty-roundtrip t) for every nullability combination over base names Int, String, Float, Boolean, Vertex plus names that need escaping in JSON/RON (quote, backslash, non-ASCII, empty) for 0..3 list levels (0..4 thorough), a sparse stream at 28-30 levels, 31 levels (panic), and a few names for which the text is ambiguous (starting with `[` / ending with `!`: tagged ambiguous-name, correspondence only, exempt from the oracle); the implementation's answer combines Display→Type::parse, serde_json and ron (they must agree). Values: (tv-roundtrip v) = FieldValue → TransparentValue → serde_json text → TransparentValue → FieldValue, and (fv-serde v) = tagged FieldValue through serde_json and through ron, over every scalar boundary partition (both integer representations incl. 2^63 boundaries, boundary floats incl. ±0, subnormals, f64::MAX, 2^63, strings needing escapes), enum leaves, nested lists, and seeded random values to nesting depth 4 whose floats are boundary floats or random finite floats that survive serde_json's own f64 print/parse; a dedicated stream (tv-roundtrip-lossy / fv-serde-lossy, answers with float leaves masked) carries the F-28 witness and random finite floats that do NOT survive serde_json's own print/parse. A value case is non-trivial (nt:…) when it contains a list, a float, an unsigned integer or an enum — i.e. anything but a bare signed integer/string/bool/null. Compiled queries: (ir-roundtrip file) for every /repo/trustfall_core/test_data/tests/valid_queries/*.ir.ron: IRQuery → RON and → JSON → back, compared with ==; this stream is IMPLEMENTATION-ONLY EXPLORATION of the derived serde impls (the model's answer is the constant `ok`). ORACLE: round-trip result == original, and for the tagged routes the identical variant."
+    }
+    fn generate(&self, tier: Tier, rng: &mut Rng) -> Vec<Case> {
+        let max_depth = if tier == Tier::Quick { 3 } else { 4 };
+        let mut out = vec![];
+        // ---- types
+        let mut bases: Vec<&str> = BASES.to_vec();
+        bases.extend(["a\"b", "a\\b", "é", "日本", "", "_x1", "a b", "a]", "a[b"]);
+        for b in &bases {
+            for flags in all_shapes(max_depth) {
+                let t = TyDesc { base: b.to_string(), flags };
+                let d = format!("depth{}", t.depth());
+                let mut tags = vec!["ty", d.as_str()];
+                if t.depth() > 0 {
+                    tags.push("nt:list-type");
+                }
+                out.push(Case::new(Sexp::call("ty-roundtrip", vec![t.to_sexp()]), &tags));
+            }
+        }
+        for t in deep_types(rng, if tier == Tier::Quick { 3 } else { 10 }) {
+            out.push(Case::new(Sexp::call("ty-roundtrip", vec![t.to_sexp()]), &["ty", "deep", "nt:list-type"]));
+        }
+        for d in [31usize, 35] {
+            let t = TyDesc { base: "Int".into(), flags: vec![true; d + 1] };
+            out.push(Case::new(Sexp::call("ty-roundtrip", vec![t.to_sexp()]), &["ty", "too-deep"]));
+        }
+        for b in ["[Int]", "Int!", "[", "!", "[a", "a!", "[[Int!]]!"] {
+            for flags in all_shapes(1) {
+                let t = TyDesc { base: b.to_string(), flags };
+                out.push(Case::new(Sexp::call("ty-roundtrip", vec![t.to_sexp()]), &["ty", "ambiguous-name"]));
+            }
+        }
+        // ---- values
+        let mut pool: Vec<f64> = boundary_floats()
+            .iter()
+            .filter_map(|v| if let FieldValue::Float64(f) = v { Some(*f) } else { None })
+            .collect();
+        pool.extend([1e15, 1e16, 1e21, 1e-7, 123456.789, -2.5e-3, 4.9e-324, 9007199254740993.0, 18446744073709551616.0, 0.1, 0.2, 0.30000000000000004]);
+        pool.retain(|f| json_exact(*f));
+        let exact_float = |rng: &mut Rng| -> f64 {
+            if rng.chance(1, 2) {
+                return pool[rng.below(pool.len())];
+            }
+            loop {
+                let f = random_finite(rng);
+                if json_exact(f) {
+                    return f;
+                }
+            }
+        };
+        let mut values = scalar_pool();
+        values.extend(fixed_values());
+        values.push(FieldValue::Uint64(1 << 63));
+        values.push(FieldValue::Uint64((1 << 63) - 1));
+        values.push(FieldValue::from("quote\" backslash\\ newline\n nul\u{0} tab\t"));
+        values.push(FieldValue::from("\u{7f}\u{80}\u{2028}\u{feff}"));
+        values.push(FieldValue::Enum(Arc::from("")));
+        values.push(l(vec![FieldValue::Uint64(5), FieldValue::Enum(Arc::from("a")), l(vec![])]));
+        for f in pool.clone() {
+            values.push(FieldValue::Float64(f));
+            values.push(l(vec![FieldValue::Float64(f), FieldValue::Null]));
+        }
+        let n_random = if tier == Tier::Quick { 300 } else { 3000 };
+        for _ in 0..n_random {
+            let v = random_value(rng, max_depth + 1);
+            let mut r2 = rng.fork();
+            values.push(refloat(&v, &mut || exact_float(&mut r2)));
+        }
+        for _ in 0..n_random / 3 {
+            values.push(FieldValue::Float64(exact_float(rng)));
+        }
+        let mut seen = BTreeSet::new();
+        values.retain(|v| seen.insert(render_value(v)));
+        for v in &values {
+            let mut tags = vec![format!("value-{}", kind_name(v))];
+            if has_enum(v) {
+                tags.push("nt:enum".into());
+            }
+            if has_float(v) {
+                tags.push("nt:float".into());
+            }
+            if matches!(v, FieldValue::List(_)) {
+                tags.push("nt:list".into());
+            }
+            if matches!(v, FieldValue::Uint64(_)) {
+                tags.push("nt:uint".into());
+            }
+            let tags: Vec<&str> = tags.iter().map(|s| s.as_str()).collect();
+            out.push(Case::new(Sexp::call("tv-roundtrip", vec![value_to_sexp(v)]), &tags));
+            out.push(Case::new(Sexp::call("fv-serde", vec![value_to_sexp(v)]), &tags));
+        }
+        // ---- dedicated F-28 stream: floats that do not survive serde_json's own print/parse
+        let mut lossy = vec![f64::from_bits(F28_WITNESS_BITS)];
+        let n_lossy = if tier == Tier::Quick { 40 } else { 400 };
+        while lossy.len() < n_lossy {
+            let f = random_finite(rng);
+            if !json_exact(f) {
+                lossy.push(f);
+            }
+        }
+        for (i, f) in lossy.iter().enumerate() {
+            let v = match i % 3 {
+                0 => FieldValue::Float64(*f),
+                1 => l(vec![FieldValue::Int64(1), FieldValue::Float64(*f)]),
+                _ => l(vec![l(vec![FieldValue::Float64(*f), FieldValue::Null]), FieldValue::from("a")]),
+            };
+            out.push(Case::new(Sexp::call("tv-roundtrip-lossy", vec![value_to_sexp(&v)]), &["float-json-inexact", "nt:float"]));
+            out.push(Case::new(Sexp::call("fv-serde-lossy", vec![value_to_sexp(&v)]), &["float-json-inexact", "nt:float"]));
+        }
+        // ---- compiled queries (implementation-only exploration)
+        let mut files: Vec<String> = std::fs::read_dir(IR_DIR)
+            .map(|d| d.filter_map(|e| e.ok()).map(|e| e.file_name().to_string_lossy().to_string()).filter(|n| n.ends_with(".ir.ron")).collect())
+            .unwrap_or_default();
+        files.sort();
+        for f in files {
+            out.push(Case::new(Sexp::call("ir-roundtrip", vec![hex_atom(&f)]), &["ir", "nt:compiled-query", "exploration"]));
+        }
+        out
+    }
+
+    fn eval(&self, request: &Sexp) -> Option<String> {
+        let (h, args) = request.as_call()?;
+        match (h, args) {
+            ("ty-roundtrip", [a]) => {
+                let t = sexp_to_ty(a)?;
+                let routes = ty_routes(&t);
+                let render = |r: &Result<Type, String>| match r {
+                    Ok(t) => render_ty(t),
+                    Err(_) => "err".to_string(),
+                };
+                let first = render(&routes[0].1);
+                if routes.iter().all(|(_, r)| render(r) == first) {
+                    Some(first)
+                } else {
+                    Some(routes.iter().map(|(n, r)| format!("{n}={}", render(r))).collect::<Vec<_>>().join(" "))
+                }
+            }
+            ("tv-roundtrip", [v]) | ("tv-roundtrip-lossy", [v]) => {
+                let v = sexp_to_value(v)?;
+                let masked = h.ends_with("-lossy");
+                Some(match tv_roundtrip(&v) {
+                    Ok(back) => if masked { render_masked(&back) } else { render_value(&back) },
+                    Err(_) => "err".to_string(),
+                })
+            }
+            ("fv-serde", [v]) | ("fv-serde-lossy", [v]) => {
+                let v = sexp_to_value(v)?;
+                let masked = h.ends_with("-lossy");
+                let render = |r: &Result<FieldValue, String>| match r {
+                    Ok(b) => if masked { render_masked(b) } else { render_value(b) },
+                    Err(_) => "err".to_string(),
+                };
+                let (j, r) = (fv_json(&v), fv_ron(&v));
+                if render(&j) == render(&r) { Some(render(&j)) } else { Some(format!("json={} ron={}", render(&j), render(&r))) }
+            }
+            ("ir-roundtrip", [x]) => {
+                let file = String::from_utf8(unhex(x.as_atom()?)?).ok()?;
+                if file.contains('/') {
+                    return None;
+                }
+                Some(ir_roundtrip(&file))
+            }
+            _ => None,
+        }
+    }
+
+    fn post_tags(&self, e: &Evaluated) -> Vec<String> {
+        let mut t = vec![];
+        if let Some((h, _)) = e.request.as_call() {
+            let class = match e.answer.as_str() {
+                "ok" | "err" | "panic" => e.answer.as_str(),
+                a if a == e.request.as_list().and_then(|l| l.get(1)).map(|x| x.to_string()).unwrap_or_default() => "identical",
+                _ => "changed",
+            };
+            t.push(format!("{h}={class}"));
+        }
+        t
+    }
+
+    fn oracle(&self, evaluated: &[Evaluated]) -> Vec<OracleFailure> {
+        let sink = FailSink::default();
+        for e in evaluated {
+            let Some((h, args)) = e.request.as_call() else { continue };
+            let line = e.line.clone();
+            match (h, args) {
+                ("ty-roundtrip", [a]) => {
+                    let Some(d) = TyDesc::from_sexp(a) else { continue };
+                    if d.depth() > 30 || !valid_name(&d.base) {
+                        continue; // construction panics / text is ambiguous: outside the property's domain
+                    }
+                    match guarded(|| {
+                        let t = d.build();
+                        ty_routes(&t).into_iter().map(|(n, r)| (n, r.map(|u| u == t))).collect::<Vec<_>>()
+                    }) {
+                        Ok(rs) => {
+                            for (n, r) in rs {
+                                if r != Ok(true) {
+                                    sink.fail(&format!("ty-roundtrip-not-equal:{n}"), format!("{} {:?}", d.text(), r), vec![line.clone()]);
+                                }
+                            }
+                        }
+                        Err(info) => sink.fail(&panic_key(&info), info, vec![line.clone()]),
+                    }
+                }
+                ("tv-roundtrip", [v]) | ("tv-roundtrip-lossy", [v]) => {
+                    let Some(v) = sexp_to_value(v) else { continue };
+                    match guarded(|| tv_roundtrip(&v)) {
+                        Ok(Ok(back)) => {
+                            if back != v {
+                                let cause = if has_enum(&v) && back == enums_to_strings(&v) {
+                                    "enum"
+                                } else if same_but_floats(&back, &v) {
+                                    "float-json"
+                                } else {
+                                    "other"
+                                };
+                                sink.fail(&format!("tv-roundtrip-not-equal:{cause}"), format!("{} came back as {}", render_value(&v), render_value(&back)), vec![line.clone()]);
+                            }
+                        }
+                        Ok(Err(msg)) => sink.fail("tv-roundtrip-error", msg, vec![line.clone()]),
+                        Err(info) => sink.fail(&panic_key(&info), info, vec![line.clone()]),
+                    }
+                }
+                ("fv-serde", [v]) | ("fv-serde-lossy", [v]) => {
+                    let Some(v) = sexp_to_value(v) else { continue };
+                    for (fmt, f) in [("json", fv_json as fn(&FieldValue) -> Result<FieldValue, String>), ("ron", fv_ron)] {
+                        match guarded(|| f(&v)) {
+                            Ok(Ok(back)) => {
+                                if back != v || render_value(&back) != render_value(&v) {
+                                    let cause = if back == v {
+                                        "variant"
+                                    } else if same_but_floats(&back, &v) {
+                                        "float-json"
+                                    } else {
+                                        "other"
+                                    };
+                                    let cause = if fmt == "ron" && cause == "float-json" { "float-ron" } else { cause };
+                                    sink.fail(&format!("fv-{fmt}-not-equal:{cause}"), format!("{} came back as {}", render_value(&v), render_value(&back)), vec![line.clone()]);
+                                }
+                            }
+                            Ok(Err(msg)) => sink.fail(&format!("fv-{fmt}-error"), msg, vec![line.clone()]),
+                            Err(info) => sink.fail(&panic_key(&info), info, vec![line.clone()]),
+                        }
+                    }
+                }
+                ("ir-roundtrip", [_]) => {
+                    if e.answer != "ok" {
+                        let key = e.answer.split([',', ':']).next().unwrap_or("failed").to_string();
+                        sink.fail(&format!("ir-roundtrip-{key}"), e.answer.clone(), vec![line.clone()]);
+                    }
+                }
+                _ => {}
+            }
+        }
+        sink.take()
+    }
+
+    fn extra_stats(&self, evaluated: &[Evaluated]) -> serde_json::Value {
+        let count = |p: &str| evaluated.iter().filter(|e| e.line.starts_with(p)).count();
+        serde_json::json!({
+            "type_roundtrips": count("(ty-roundtrip"),
+            "untagged_value_roundtrips": count("(tv-roundtrip"),
+            "tagged_value_roundtrips_each_json_and_ron": count("(fv-serde"),
+            "compiled_queries_roundtripped_each_ron_and_json": count("(ir-roundtrip"),
+            "float_json_inexact_stream": evaluated.iter().filter(|e| e.tags.iter().any(|t| t == "float-json-inexact")).count(),
+        })
+    }
+}
 
 fn main() {
-    main_for(vec![Box::new(C17)]);
+    main_for(vec![Box::new(C17), Box::new(C16)]);
 }
